@@ -40,7 +40,7 @@ def gen(tier, seed):
     n = 500 if tier == "quick" else 15000
     cases = []
     for i in range(n):
-        s = Session(rng, weights=W, chmax=rng.choice([2, 3, 6]), bound=rng.choice([2, 4]), via_stream=rng.choice([0.0, 0.5, 1.0]))
+        s = Session(rng, weights=W, chmax=rng.choice([2, 3, 6]), bound=rng.choice([1, 2, 4]), via_stream=rng.choice([0.0, 0.5, 1.0]))
         s.run(rng.randint(6, 30))
         cases.append(s.case("r%d" % i))
     return cases
